@@ -298,6 +298,11 @@ async fn network_connect(options: &MqttOptions) -> Result<Network, ConnectionErr
         }
     }
 
+    #[cfg(rumqtt_verif)]
+    if let Some(stream) = crate::verif::connect() {
+        return Ok(Network::new(stream, max_incoming_pkt_size));
+    }
+
     // Process Unix files early, as proxy is not supported for them.
     #[cfg(unix)]
     if matches!(options.transport(), Transport::Unix) {
